@@ -33,7 +33,7 @@ MCRoundTrip(dec, n) ==
   /\ last' = [a |-> "RoundTrip", dec |-> dec, n |-> n] /\ UNCHANGED <<nPub, nInt>>
 
 MCPublishRaw(i, pbOK) ==
-  /\ last.a \in {"Open", "PublishRaw", "ReadBack", "Internal"} /\ nPub < MaxPub
+  /\ last.a \in {"Open", "PublishRaw", "ReadBack", "Internal", "Subject"} /\ nPub < MaxPub
   /\ IntAnywhere \/ nInt = 0      \* design check: internal traffic and publishes are explored separately
   /\ PbFeasible(i, pbOK)
   /\ DoPublishRaw(i, pbOK, nPub + 1)
@@ -50,20 +50,34 @@ MCReadBack ==
 \* leave room for a request, every handler, every request shape
 IntInputs == {i \in PubInputs : i.len \in {8, 28} /\ i.hl \in {8, 12, 255}}
 MCInternal(h, i, pbOK, shape) ==
-  /\ last.a \in {"Open", "PublishRaw", "ReadBack", "Internal"} /\ nInt < MaxInt
+  /\ last.a \in {"Open", "PublishRaw", "ReadBack", "Internal", "Subject"} /\ nInt < MaxInt
   /\ IntAnywhere \/ nPub = 0
   /\ PbFeasible(i, pbOK) /\ (~pbOK => shape = 0)
   /\ DoInternal(h, i, pbOK, shape)
   /\ last' = [a |-> "Internal", h |-> h, i |-> i, pbOK |-> pbOK, shape |-> shape]
   /\ nInt' = nInt + 1 /\ UNCHANGED nPub
 
+\* bytes for any subject of the inventory that the live part feeds, naming entities in every relation to
+\* what exists on the receiver (EntsOf).  len 8 = no payload, len 28 = a payload (the harness records the
+\* real length of the request it built).
+MCSubject(h, i, pbOK, x) ==
+  /\ last.a \in {"Open", "PublishRaw", "ReadBack", "Internal", "Subject"} /\ nInt < MaxInt
+  /\ IntAnywhere \/ nPub = 0
+  /\ PbFeasible(i, pbOK) /\ ((~pbOK \/ i.len = 8) => x = NoEnt)
+  /\ DoSubject(h, i, pbOK, x)
+  /\ last' = [a |-> "Subject", h |-> h, i |-> i, pbOK |-> pbOK, ent |-> x]
+  /\ nInt' = nInt + 1 /\ UNCHANGED nPub
+
 MCNext ==
   \/ (TableOn /\ last.a = "Open") /\ \E dec \in Decoders, i \in Inputs, pbOK \in BOOLEAN : MCDecode(dec, i, pbOK)
   \/ (TableOn /\ last.a = "Open") /\ \E dec \in Decoders, n \in 0..MaxN : MCRoundTrip(dec, n)
-  \/ (last.a \in {"Open", "PublishRaw", "ReadBack", "Internal"} /\ nPub < MaxPub /\ (IntAnywhere \/ nInt = 0)) /\ \E i \in PubInputs, pbOK \in BOOLEAN : MCPublishRaw(i, pbOK)
+  \/ (last.a \in {"Open", "PublishRaw", "ReadBack", "Internal", "Subject"} /\ nPub < MaxPub /\ (IntAnywhere \/ nInt = 0)) /\ \E i \in PubInputs, pbOK \in BOOLEAN : MCPublishRaw(i, pbOK)
   \/ MCReadBack
-  \/ (last.a \in {"Open", "PublishRaw", "ReadBack", "Internal"} /\ nInt < MaxInt /\ (IntAnywhere \/ nPub = 0)) /\
+  \/ (last.a \in {"Open", "PublishRaw", "ReadBack", "Internal", "Subject"} /\ nInt < MaxInt /\ (IntAnywhere \/ nPub = 0)) /\
        \E h \in InternalHandlers, i \in IntInputs, pbOK \in BOOLEAN, shape \in 0..MaxShape : MCInternal(h, i, pbOK, shape)
+
+  \/ (last.a \in {"Open", "PublishRaw", "ReadBack", "Internal", "Subject"} /\ nInt < MaxInt /\ (IntAnywhere \/ nPub = 0)) /\
+       \E h \in FedSubjects, i \in IntInputs, pbOK \in BOOLEAN : \E x \in EntsOf(h) : MCSubject(h, i, pbOK, x)
 
 MCSpec == MCInit /\ [][MCNext]_mcvars
 
@@ -74,6 +88,7 @@ StepOK ==
     [] a.a = "PublishRaw" -> P_PublishRaw(a.i, a.pbOK, a.id)
     [] a.a = "ReadBack" -> P_ReadBack
     [] a.a = "Internal" -> P_Internal
+    [] a.a = "Subject" -> P_Subject(a.h, a.i, a.pbOK)
     [] OTHER -> P_Same
 StepsOK == [][StepOK]_mcvars
 
